@@ -8,10 +8,6 @@ mod strings;
 
 #[allow(clippy::case_sensitive_file_extension_comparisons)]
 pub(crate) fn is_plain_css_import(url: &str) -> bool {
-    if url.len() < 5 {
-        return false;
-    }
-
     let lower = url.to_ascii_lowercase();
 
     lower.ends_with(".css")
